@@ -200,63 +200,7 @@ func checkC12(c *Ctx) {
 		}
 	}
 
-	// RETURNING rows are assigned to the in-memory records (Append/Replace of new and existing targets in one
-	// call) through the cursor db.RowsAffected: it advances - also past records that hit ON CONFLICT DO NOTHING -
-	// only while a returned row is pending, i.e. inside a loop/branch controlled by rows.Next()
-	rcur := c.Rule("C12.returning-cursor", "gorm.Scan advances the record cursor only under rows.Next()", 4)
-	{
-		scan := p.FuncDecl(pkgGorm, "Scan")
-		c.Touch(scan)
-		info := scan.Pkg.TypesInfo
-		raF := p.Field(p.Named(pkgGorm, "DB"), "RowsAffected")
-		nextM := p.Iface(pkgGorm, "Rows")
-		isNext := func(e ast.Expr) bool {
-			found := false
-			ast.Inspect(e, func(x ast.Node) bool {
-				if ce, ok := x.(*ast.CallExpr); ok {
-					if fn, _ := typeutil.Callee(info, ce).(*types.Func); fn != nil && fn.Name() == "Next" {
-						if sig := fn.Type().(*types.Signature); sig.Recv() != nil && types.Identical(sig.Recv().Type().Underlying(), nextM) {
-							found = true
-						}
-					}
-				}
-				return true
-			})
-			return found
-		}
-		parents := parentMap(scan.Body)
-		ast.Inspect(scan.Body, func(n ast.Node) bool {
-			var target ast.Expr
-			switch x := n.(type) {
-			case *ast.IncDecStmt:
-				if x.Tok == token.INC {
-					target = x.X
-				}
-			case *ast.AssignStmt:
-				if x.Tok == token.ADD_ASSIGN && len(x.Lhs) == 1 {
-					target = x.Lhs[0]
-				}
-			}
-			if target == nil || !fieldSel(info, target, raF) {
-				return true
-			}
-			under := false
-			for cur := ast.Node(n); cur != nil; cur = parents[cur] {
-				switch pp := parents[cur].(type) {
-				case *ast.ForStmt:
-					if pp.Cond != nil && isNext(pp.Cond) && cur == ast.Node(pp.Body) {
-						under = true
-					}
-				case *ast.IfStmt:
-					if isNext(pp.Cond) && cur == ast.Node(pp.Body) {
-						under = true
-					}
-				}
-			}
-			rcur.Check(under, scan.Name(), "cursor advance", n.Pos(), "inside a loop/branch controlled by rows.Next()", "the record cursor RowsAffected advances outside the row loop: returned rows are no longer re-aligned per row with the in-memory records (records stored earlier in the same slice get another record's generated key, or valid input fails)")
-			return true
-		})
-	}
+	checkReturningCursor(c, c.Rule("C12.returning-cursor", "gorm.Scan advances the record cursor only under rows.Next()", 4))
 
 	r.Check(nRecord >= 3 && nLink >= 2 && nDetach >= 3, "gorm.Association", "census", assocT.Obj().Pos(), itoa(nRecord)+" record deletions, "+itoa(nLink)+" link deletions, "+itoa(nDetach)+" detaching updates", "association mode lost its record/link deletion sites; rule lost its anchors")
 }
@@ -414,7 +358,7 @@ func checkC15(c *Ctx) {
 	}
 	rr.Check(nRaise >= 1, scan.Name(), "raises", scan.Body.Pos(), "ErrRecordNotFound is raised", "nothing raises ErrRecordNotFound any more")
 
-	checkC15MapComplete(c)
+	checkC15MapComplete(c, c.Rule("C15.map-complete", "scanIntoMap stores an entry for every column on every path of an iteration", 1))
 
 	// ---- C15.cursor-group ----
 	// FindInBatches continues after the last key of a batch by adding `pk > ?` to the chain.  Like the
@@ -783,5 +727,67 @@ func checkC20(c *Ctx) {
 				rg.Bad(f.Name(), fn.Name()+" in AutoMigrate", call.Pos(), "AutoMigrate itself calls "+fn.Name())
 			}
 		}
+	}
+}
+
+
+// checkReturningCursor: RETURNING rows are assigned to the in-memory records (Append/Replace of new and
+// existing targets in one call, batch Create with DB-generated keys) through the cursor db.RowsAffected: it
+// advances - also past records that hit ON CONFLICT DO NOTHING - only while a returned row is pending, i.e.
+// inside a loop/branch controlled by rows.Next().  Shared by C12 and C03.
+func checkReturningCursor(c *Ctx, rcur *Rule) {
+	p := c.P
+	{
+		scan := p.FuncDecl(pkgGorm, "Scan")
+		c.Touch(scan)
+		info := scan.Pkg.TypesInfo
+		raF := p.Field(p.Named(pkgGorm, "DB"), "RowsAffected")
+		nextM := p.Iface(pkgGorm, "Rows")
+		isNext := func(e ast.Expr) bool {
+			found := false
+			ast.Inspect(e, func(x ast.Node) bool {
+				if ce, ok := x.(*ast.CallExpr); ok {
+					if fn, _ := typeutil.Callee(info, ce).(*types.Func); fn != nil && fn.Name() == "Next" {
+						if sig := fn.Type().(*types.Signature); sig.Recv() != nil && types.Identical(sig.Recv().Type().Underlying(), nextM) {
+							found = true
+						}
+					}
+				}
+				return true
+			})
+			return found
+		}
+		parents := parentMap(scan.Body)
+		ast.Inspect(scan.Body, func(n ast.Node) bool {
+			var target ast.Expr
+			switch x := n.(type) {
+			case *ast.IncDecStmt:
+				if x.Tok == token.INC {
+					target = x.X
+				}
+			case *ast.AssignStmt:
+				if x.Tok == token.ADD_ASSIGN && len(x.Lhs) == 1 {
+					target = x.Lhs[0]
+				}
+			}
+			if target == nil || !fieldSel(info, target, raF) {
+				return true
+			}
+			under := false
+			for cur := ast.Node(n); cur != nil; cur = parents[cur] {
+				switch pp := parents[cur].(type) {
+				case *ast.ForStmt:
+					if pp.Cond != nil && isNext(pp.Cond) && cur == ast.Node(pp.Body) {
+						under = true
+					}
+				case *ast.IfStmt:
+					if isNext(pp.Cond) && cur == ast.Node(pp.Body) {
+						under = true
+					}
+				}
+			}
+			rcur.Check(under, scan.Name(), "cursor advance", n.Pos(), "inside a loop/branch controlled by rows.Next()", "the record cursor RowsAffected advances outside the row loop: returned rows are no longer re-aligned per row with the in-memory records (records stored earlier in the same slice get another record's generated key, or valid input fails)")
+			return true
+		})
 	}
 }
